@@ -41,8 +41,9 @@ Definition eDeleteNotExact : Z := 22. (* dns.transaction.DeleteNotExact *)
 Definition eValueClass : Z := 30.     (* ValueError "... has objects of wrong RdataClass" *)
 Definition eValueSOA : Z := 31.       (* ValueError "... has non-origin SOA" *)
 Definition eValueInit : Z := 32.      (* ValueError raised by Inbound.__init__ *)
+Definition eValueEmpty : Z := 33.     (* ValueError "rdata list must not be empty" (RRset.to_rdataset) *)
 Definition eEOF : Z := 40.            (* EOFError: the stream ended before the transfer was done *)
-Definition eIndex : Z := 50.          (* IndexError: rdataset[0] on an empty rdataset *)
+Definition eIndex : Z := 50.          (* rdataset[0] on an RRset without rdata (StopIteration from Set.__getitem__) *)
 Definition eAssert : Z := 51.         (* AssertionError: assert self.txn is not None *)
 
 (* ---- rdata sets: strictly increasing lists ---- *)
@@ -90,9 +91,6 @@ Fixpoint zremove (k : key) (z : zone) : zone :=
 Definition zput (k : key) (e : entry) (z : zone) : zone := (k, e) :: zremove k z.
 
 Definition name_of_key (k : key) : Z := let '(n, _, _) := k in n.
-Definition name_exists (z : zone) (n : Z) : bool := existsb (fun ke => name_of_key (fst ke) =? n) z.
-Definition zremove_name (n : Z) (z : zone) : zone :=
-  filter (fun ke => negb (name_of_key (fst ke) =? n)) z.
 
 (* ---- records and RRsets ---- *)
 Record rr := mkRR { r_name : Z; r_class : Z; r_type : Z; r_covers : Z; r_ttl : Z; r_data : Z }.
@@ -141,29 +139,31 @@ Definition group (one_rr : bool) (rs : list rr) : list rrset := group_go one_rr 
 
 (* ---- dns/transaction.py over a zone version (class IN) ---- *)
 
-(* Transaction._add(replace, (name, rdataset)) *)
+(* Transaction._add(replace, (name, rrset)): the RRset handed over by dns.xfr is first converted
+   with RRset.to_rdataset(), which raises ValueError("rdata list must not be empty") *)
 Definition t_add (replace : bool) (z : zone) (s : rrset) : res zone :=
-  if negb (s_class s =? cIN) then Internal eValueClass
-  else if (s_type s =? tSOA) && negb (s_name s =? origin) then Internal eValueSOA
-  else
-    let k := skey s in
-    let e :=
-      if replace then (s_ttl s, s_data s)
-      else match look z k with
-           | Some (ettl, erds) =>
-               (* existing.union(rdataset): union_update -> update_ttl (minimum) *)
-               ((if s_ttl s <? ettl then s_ttl s else ettl), union erds (s_data s))
-           | None => (s_ttl s, s_data s)
-           end in
-    Ok (zput k e z).
+  match s_data s with
+  | [] => Internal eValueEmpty
+  | _ :: _ =>
+      if negb (s_class s =? cIN) then Internal eValueClass
+      else if (s_type s =? tSOA) && negb (s_name s =? origin) then Internal eValueSOA
+      else
+        let k := skey s in
+        let e :=
+          if replace then (s_ttl s, s_data s)
+          else match look z k with
+               | Some (ettl, erds) =>
+                   (* existing.union(rdataset): union_update -> update_ttl (minimum) *)
+                   ((if s_ttl s <? ettl then s_ttl s else ettl), union erds (s_data s))
+               | None => (s_ttl s, s_data s)
+               end in
+        Ok (zput k e z)
+  end.
 
-(* Transaction._delete(exact=True, (name, rdataset)) *)
+(* Transaction._delete(exact=True, (name, rrset)) *)
 Definition t_delete_exact (z : zone) (s : rrset) : res zone :=
   match s_data s with
-  | [] =>
-      (* "if rdataset:" is false for an empty rdataset: delete the whole name *)
-      if negb (name_exists z (s_name s)) then Lib eDeleteNotExact
-      else Ok (zremove_name (s_name s) z)
+  | [] => Internal eValueEmpty
   | _ :: _ =>
       if negb (s_class s =? cIN) then Internal eValueClass
       else
@@ -374,14 +374,16 @@ Definition inbound_xfr (z : zone) (rdt : Z) (ser : option Z) (udp : bool) (ws : 
   end.
 
 (* feeding already parsed messages to process_message one after the other (the public API used
-   without the driver): per-message results, stop at the first exception, then __exit__ *)
+   without the driver): per-message results (0 = returned False, rTrue = returned True, otherwise the
+   error code), stop at the first exception, then __exit__ *)
+Definition rTrue : Z := 1000.
 Fixpoint feed (s : st) (ms : list message) : list Z * zone :=
   match ms with
   | [] => ([], pub s)
   | m :: rest =>
       match process_message s m with
       | (s', Some e) => ([e], pub s')
-      | (s', None) => let '(l, z) := feed s' rest in ((if done s' then -1 else 0) :: l, z)
+      | (s', None) => let '(l, z) := feed s' rest in ((if done s' then rTrue else 0) :: l, z)
       end
   end.
 
